@@ -240,12 +240,12 @@ def _build(case):
         xd = (x.dequantize() if isinstance(x, QTensor) else x).to(torch.float64)
         r = xd.reshape(-1, K) @ w.dequantize().to(torch.float64).t()
         peak = float(r.abs().max())
-        if peak > 0 and isinstance(w, QBytesTensor) and w.axis == 0:
+        if peak > 0 and w.axis is not None:
             f = 9e4 / peak
             fx = min(f, 200.0 / max(float(xd.abs().max()), 1e-30))
             fw = f / fx
             if fw != 1.0:
-                w = quantize_weight(gen.clamp_finite(w.dequantize().to(torch.float64) * fw, dtype), w.qtype, 0)
+                w = quantize_weight(gen.clamp_finite(w.dequantize().to(torch.float64) * fw, dtype), w.qtype, w.axis, getattr(w, "_group_size", None))
                 r = xd.reshape(-1, K) @ w.dequantize().to(torch.float64).t() / fw
             f = fx * fw
             xs = gen.clamp_finite(xd * fx, dtype)
@@ -474,11 +474,12 @@ def run_grid(ctx):
     for dt in ("fp16", "bf16"):
         for act in ACTS:
             for wq in WQ:
-                if wq in ("qint4", "qint2"):
-                    continue
                 for (r, k, n) in [(4, 64, 8), (2, 160, 3), (24, 16, 8)]:
-                    cs.append({"dtype": dt, "act": act, "wq": wq, "rows": r, "brank": 1, "inf": k, "outf": n, "bias": True, "mode": "real", "entry": "linear", "layout": "contig", "ascale": "absmax",
-                               "group": 0, "per_tensor_w": False, "sign": "one-sided", "bigbias": True, "seed": 4 * (ctx.seed * 100 + k + n) + 1})
+                    for wax in (0, -1):
+                        if wax == -1 and wq in ("qint4", "qint2"):
+                            continue
+                        cs.append({"dtype": dt, "act": act, "wq": wq, "rows": r, "brank": 1, "inf": k, "outf": n, "bias": True, "mode": "real", "entry": "linear", "layout": "contig", "ascale": "absmax",
+                                   "group": 0, "per_tensor_w": False, "sign": "one-sided", "bigbias": True, "w_axis": wax, "seed": 4 * (ctx.seed * 100 + k + n) + 1})
     # large coherent sums: one-sided float activations of magnitude 20 against near-constant weight rows -- the unscaled sum
     # of activation x code products leaves the range of float16 although the result does not
     for dt in ("fp16", "bf16", "fp32"):
